@@ -30,4 +30,6 @@ Terminates == <>(st # "run")
 \* label runs between successful jumps are disjoint; only the last (failing) run can overlap an earlier one
 StepBound == hops <= 3 * N /\ labels <= 2 * N
 SegDecreases == [][seg' <= seg]_vars
+\* the ranking argument of DnsWalkProof.tla (proved there with TLAPS for every N), evaluated here on every explored state
+MeasureInv == hops + seg * (N + 1) + (N - pos) <= start * (N + 1) + (N - start)
 =============================================================================
